@@ -5,3 +5,5 @@ go 1.23
 toolchain go1.23.5
 
 require pgregory.net/rapid v1.3.0
+
+require golang.org/x/crypto v0.0.0-20210322153248-0c34fe9e7dc2
